@@ -21,6 +21,7 @@ tvars == <<l, docs, storedF, cfg, dead, seen, pbytes, svars>>
 Ev == Rec[l]
 
 SeqSet(s) == {s[i] : i \in 1..Len(s)}
+Has(r, k) == k \in DOMAIN r
 
 \* what the store must return for a document: its stored fields, values in the order added; a
 \* pre-tokenized text is stored as its text
@@ -81,7 +82,8 @@ TPhaseEnd ==
 
 TMerged ==
   /\ Ev.ev = "merged" /\ Ev.ok
-  /\ UNCHANGED <<docs, storedF, cfg, dead, seen, pbytes, svars>>
+  /\ cfg' = IF Has(Ev, "comp") THEN [cfg EXCEPT !.comp = Ev.comp] ELSE cfg    \* compressor of the merged store
+  /\ UNCHANGED <<docs, storedF, dead, seen, pbytes, svars>>
 
 TEnd ==
   /\ Ev.ev = "end"
